@@ -5,7 +5,10 @@ parse.class_(merge_inner_function='__init__') report is compared with inspect.si
 (names minus self/cls, each once, source order, defaults, annotations) and with what the docstring says (prose,
 documented type/default win).  Every failure is classified by the extracted Coq function finding_class_C07
 (coq/model/C07Spec.v); the same executable Coq predicate C07_check is also applied to the implementation's output and
-to the model's, and the three verdicts are cross-checked."""
+to the model's, and the three verdicts are cross-checked.
+Environment stratum: every judged point is judged again by the same judge in child interpreters started with -O and
+-OO (as a flag or through PYTHONOPTIMIZE) and under other PYTHONHASHSEED values ("independent of any run-to-run
+variation"; what Python sees does not depend on how the interpreter was started, so what is parsed must not either)."""
 import ast
 import collections
 import copy
@@ -207,10 +210,72 @@ def impl_holds(case):
 
 
 def check_case(case):
+    if "src" in case and case.get("interp") is not None:
+        res = run_in_child([{"kind": case["kind"], "src": case["src"]}], case["interp"], case.get("hashseed", 0))
+        if isinstance(res, str):
+            return False, res
+        return (res[0][0] is not False), res[0][1]
     if "src" in case:
         ok, what = impl_holds(case)
         return (ok is not False), what
     return True, ""
+
+
+# ------------------------------------------------------------------ environment stratum
+# "however the interpreter was started": the same judge (impl_holds: execute the definition, inspect.signature, parse,
+# compare) evaluated in child interpreters started with other flags / hash seeds.  -O (== PYTHONOPTIMIZE=1) removes
+# assert statements and sets __debug__ False, -OO also strips the docstrings of the *library* (the generated
+# definition's own docstring is read from its source text by ast, so it is still there); PYTHONHASHSEED moves every
+# str-keyed set/dict-of-set iteration.
+CHILD = r"""
+import json, sys
+sys.path.insert(0, sys.argv[1])
+import prop_C07
+pts = json.load(sys.stdin)
+out = []
+for p in pts:
+    try:
+        ok, what = prop_C07.impl_holds(p)
+    except BaseException as e:  # noqa
+        ok, what = None, "judge raised %s" % type(e).__name__
+    out.append([ok, what])
+json.dump({"optimize": sys.flags.optimize, "hash_randomization": sys.flags.hash_randomization, "results": out}, sys.stdout)
+"""
+
+
+def run_in_child(pts, interp, hashseed=0, via_env=False):
+    """[(ok, what)] of impl_holds for every point, judged in `python <interp...>` under PYTHONHASHSEED=hashseed
+    (via_env: the optimisation level is passed as PYTHONOPTIMIZE instead of a flag); a str on failure of the child"""
+    import json
+    import os
+    import subprocess
+    from common import VENV_PY, REPO
+    env = dict(os.environ, PYTHONPATH=REPO, VERIF_REPO=REPO, PYTHONHASHSEED=str(hashseed), PYTHONDONTWRITEBYTECODE="1")
+    env.pop("DOCTRANS_LINE_LENGTH", None)
+    env.pop("PYTHONOPTIMIZE", None)
+    flags = list(interp)
+    if via_env and flags:
+        env["PYTHONOPTIMIZE"] = str(sum(f.count("O") for f in flags))
+        flags = []
+    p = subprocess.run([VENV_PY] + flags + ["-c", CHILD, os.path.dirname(os.path.abspath(__file__))],
+                       input=json.dumps([{"kind": x["kind"], "src": x["src"]} for x in pts]).encode(), env=env,
+                       stdout=subprocess.PIPE, stderr=subprocess.PIPE, timeout=900)
+    if p.returncode != 0:
+        return "child interpreter %r (PYTHONHASHSEED=%s) failed: %s" % (interp, hashseed, p.stderr.decode("utf-8", "replace")[-500:])
+    r = json.loads(p.stdout.decode())
+    want = sum(f.count("O") for f in interp)
+    if r["optimize"] != want:
+        return "child interpreter %r runs at optimisation level %s" % (interp, r["optimize"])
+    return [tuple(x) for x in r["results"]]
+
+
+def env_configs(rng, tier):
+    """(flags, hash seed, level passed through the environment?) of the child interpreters"""
+    cfgs = [(["-O"], 0, False), (["-O"], rng.randrange(1, 1000), rng.random() < 0.5), ([], rng.randrange(1, 1000), False),
+            (["-OO"], rng.randrange(0, 1000), False)]
+    if tier != "quick":
+        cfgs += [(rng.choice([[], ["-O"], ["-OO"]]), rng.randrange(1, 100000), rng.random() < 0.3) for _ in range(6)]
+    return cfgs
 
 
 # ------------------------------------------------------------------ generation
@@ -276,7 +341,7 @@ def oracle(rng, tier):
     info = {}
     for i, start, k in idx:
         info[i] = outs[start:start + k]
-    failures, hist, seen, disagree = [], collections.Counter(), set(), []
+    failures, hist, seen, disagree, judged = [], collections.Counter(), set(), [], {}
     for i, p in enumerate(pts):
         ok, what = impl_holds(p)
         if ok is None:
@@ -301,6 +366,7 @@ def oracle(rng, tier):
             hist["skipped-unmodelled:" + ("holds" if ok else "fails")] += 1
             continue
         hist[p["kind"] + ":" + ("holds" if ok else "fails") + ":" + (cls or "in-guard")] += 1
+        judged[i] = (ok, what, cls)
         if cls is None and ok and len(p["tags"]) >= 2:
             seen.add(p["src"])
         if p["kind"] == "function":
@@ -313,10 +379,37 @@ def oracle(rng, tier):
                 pass
         if not ok:
             failures.append({"case": {"kind": p["kind"], "src": p["src"]}, "what": what, "class": cls})
+    # ---- environment stratum: the points judged above, judged again in child interpreters (-O, -OO, other hash seeds)
+    env_evals = 0
+    order = sorted(judged)
+    sub = [pts[i] for i in order]
+    cfgs = env_configs(rng, tier)
+    from concurrent.futures import ThreadPoolExecutor
+    with ThreadPoolExecutor(max_workers=min(8, len(cfgs))) as ex:
+        results = list(ex.map(lambda c: run_in_child(sub, c[0], c[1], c[2]), cfgs))
+    for (flags, hseed, via_env), res in zip(cfgs, results):
+        label = "python %s PYTHONHASHSEED=%s" % (" ".join(flags) or "(no flag)", hseed)
+        if isinstance(res, str):
+            failures.append({"case": {"run": label}, "what": res, "class": None})
+            continue
+        env_evals += len(res)
+        reported = 0
+        for i, (cok, cwhat) in zip(order, res):
+            ok, what, cls = judged[i]
+            key = "env:%s:%s" % (" ".join(flags) or "plain", "holds" if cok else "skipped" if cok is None else "fails")
+            hist[key] += 1
+            if cok is False and not (ok is False and what == cwhat):
+                hist["env:fails-only-or-differently-in-child"] += 1
+                if reported < 12:
+                    reported += 1
+                    failures.append({"case": {"kind": pts[i]["kind"], "src": pts[i]["src"], "interp": flags, "hashseed": hseed},
+                                     "what": "[%s] %s" % (label, cwhat), "class": cls})
     return {
-        "evaluations": len(pts),
+        "evaluations": len(pts) + env_evals,
         "distinct_nontrivial": len(seen),
-        "rule": "generated definitions (positional, keyword-only, **kwargs; self/cls methods; later parameters that are merely "
+        "rule": "every judged point is judged again in child interpreters started with -O, -OO (flag or PYTHONOPTIMIZE) "
+                "and other PYTHONHASHSEED values; "
+                "generated definitions (positional, keyword-only, **kwargs; self/cls methods; later parameters that are merely "
                 "called self/cls; classes with __init__; "
                 "annotations; defaults of literal/container/code/opaque kinds; ReST/Google/numpydoc docstrings documenting "
                 "all/some/none of the parameters in or out of order); non-trivial = distinct definition inside the guard "
